@@ -155,78 +155,106 @@ fn unescape(s: &str) -> String {
     o
 }
 
+extern "C" {
+    fn fork() -> i32;
+    fn waitpid(pid: i32, status: *mut i32, options: i32) -> i32;
+    fn _exit(code: i32) -> !;
+}
+
+fn process(line: &str, want_idents: bool, out: &mut dyn Write) {
+    let mut parts = line.splitn(3, '\t');
+    let id = parts.next().unwrap_or("");
+    let mode = parts.next().unwrap_or("x");
+    let text = unescape(parts.next().unwrap_or(""));
+    if mode == "h" {
+        // canary: iteration order of a std HashMap over the given keys (shows which hash seed is in effect)
+        let mut m = std::collections::HashMap::new();
+        for (i, k) in text.split(',').enumerate() {
+            m.insert(k.to_string(), i);
+        }
+        let order: Vec<String> = m.keys().cloned().collect();
+        writeln!(out, "{{\"id\":{},\"st\":\"ok\",\"raw\":{}}}", esc(id), esc(&order.join(","))).unwrap();
+        return;
+    }
+    if mode == "t" {
+        match TokenStream::from_str(&text) {
+            Ok(t) => writeln!(out, "{{\"id\":{},\"st\":\"ok\",\"raw\":{}}}", esc(id), esc(&canon(t))).unwrap(),
+            Err(e) => writeln!(out, "{{\"id\":{},\"st\":\"lexerr\",\"msg\":{}}}", esc(id), esc(&e.to_string())).unwrap(),
+        }
+        return;
+    }
+    let input = match TokenStream::from_str(&text) {
+        Ok(t) => t,
+        Err(e) => {
+            writeln!(out, "{{\"id\":{},\"st\":\"lexerr\",\"msg\":{}}}", esc(id), esc(&e.to_string())).unwrap();
+            return;
+        }
+    };
+    let res = std::panic::catch_unwind(std::panic::AssertUnwindSafe(|| educe::educe_verif_expand(input)));
+    match res {
+        Err(_) => writeln!(out, "{{\"id\":{},\"st\":\"panic\"}}", esc(id)).unwrap(),
+        Ok(Err(e)) => writeln!(out, "{{\"id\":{},\"st\":\"err\",\"msg\":{}}}", esc(id), esc(&e.to_string())).unwrap(),
+        Ok(Ok(tokens)) => {
+            let raw = canon(tokens.clone());
+            let mut s = format!("{{\"id\":{},\"st\":\"ok\",\"raw\":{}", esc(id), esc(&raw));
+            match syn::parse2::<Items>(tokens.clone()) {
+                Ok(items) => {
+                    s.push_str(",\"items\":[");
+                    for (k, it) in items.0.iter().enumerate() {
+                        if k > 0 {
+                            s.push(',');
+                        }
+                        s.push_str(&format!(
+                            "{{\"tr\":{},\"gen\":{},\"self\":{},\"wh\":{},\"body\":{}}}",
+                            esc(&it.trait_path),
+                            arr(&it.generics),
+                            esc(&it.self_ty),
+                            arr(&it.preds),
+                            esc(&it.body)
+                        ));
+                    }
+                    s.push(']');
+                }
+                Err(e) => s.push_str(&format!(",\"split_error\":{}", esc(&e.to_string()))),
+            }
+            if want_idents {
+                let mut set = std::collections::BTreeSet::new();
+                idents(tokens, &mut set);
+                s.push_str(&format!(",\"idents\":{}", arr(&set.into_iter().collect::<Vec<_>>())));
+            }
+            s.push('}');
+            writeln!(out, "{}", s).unwrap();
+        }
+    }
+}
+
 fn main() {
     std::panic::set_hook(Box::new(|_| {}));
     let want_idents = std::env::args().any(|a| a == "--idents");
+    // --isolate: every request is served by a forked child of this (so far idle) process: no request sees state left behind by another one
+    let isolate = std::env::args().any(|a| a == "--isolate");
     let stdin = std::io::stdin();
     let stdout = std::io::stdout();
     let mut out = std::io::BufWriter::new(stdout.lock());
     for line in stdin.lock().lines() {
         let line = line.unwrap();
-        let mut parts = line.splitn(3, '\t');
-        let id = parts.next().unwrap_or("");
-        let mode = parts.next().unwrap_or("x");
-        let text = unescape(parts.next().unwrap_or(""));
-        if mode == "h" {
-            // canary: iteration order of a std HashMap over the given keys (shows which hash seed is in effect)
-            let mut m = std::collections::HashMap::new();
-            for (i, k) in text.split(',').enumerate() {
-                m.insert(k.to_string(), i);
+        if isolate {
+            out.flush().unwrap();
+            let pid = unsafe { fork() };
+            if pid == 0 {
+                process(&line, want_idents, &mut out);
+                out.flush().unwrap();
+                unsafe { _exit(0) }
             }
-            let order: Vec<String> = m.keys().cloned().collect();
-            writeln!(out, "{{\"id\":{},\"st\":\"ok\",\"raw\":{}}}", esc(id), esc(&order.join(","))).unwrap();
-            continue;
-        }
-        if mode == "t" {
-            match TokenStream::from_str(&text) {
-                Ok(t) => writeln!(out, "{{\"id\":{},\"st\":\"ok\",\"raw\":{}}}", esc(id), esc(&canon(t))).unwrap(),
-                Err(e) => writeln!(out, "{{\"id\":{},\"st\":\"lexerr\",\"msg\":{}}}", esc(id), esc(&e.to_string())).unwrap(),
+            let mut status = 0i32;
+            let r = unsafe { waitpid(pid, &mut status, 0) };
+            if pid < 0 || r < 0 || status != 0 {
+                let id = line.splitn(2, '\t').next().unwrap_or("");
+                writeln!(out, "{{\"id\":{},\"st\":\"crash\",\"msg\":\"isolated child failed: pid {} status {}\"}}", esc(id), pid, status).unwrap();
             }
             continue;
         }
-        let input = match TokenStream::from_str(&text) {
-            Ok(t) => t,
-            Err(e) => {
-                writeln!(out, "{{\"id\":{},\"st\":\"lexerr\",\"msg\":{}}}", esc(id), esc(&e.to_string())).unwrap();
-                continue;
-            }
-        };
-        let res = std::panic::catch_unwind(std::panic::AssertUnwindSafe(|| educe::educe_verif_expand(input)));
-        match res {
-            Err(_) => writeln!(out, "{{\"id\":{},\"st\":\"panic\"}}", esc(id)).unwrap(),
-            Ok(Err(e)) => writeln!(out, "{{\"id\":{},\"st\":\"err\",\"msg\":{}}}", esc(id), esc(&e.to_string())).unwrap(),
-            Ok(Ok(tokens)) => {
-                let raw = canon(tokens.clone());
-                let mut s = format!("{{\"id\":{},\"st\":\"ok\",\"raw\":{}", esc(id), esc(&raw));
-                match syn::parse2::<Items>(tokens.clone()) {
-                    Ok(items) => {
-                        s.push_str(",\"items\":[");
-                        for (k, it) in items.0.iter().enumerate() {
-                            if k > 0 {
-                                s.push(',');
-                            }
-                            s.push_str(&format!(
-                                "{{\"tr\":{},\"gen\":{},\"self\":{},\"wh\":{},\"body\":{}}}",
-                                esc(&it.trait_path),
-                                arr(&it.generics),
-                                esc(&it.self_ty),
-                                arr(&it.preds),
-                                esc(&it.body)
-                            ));
-                        }
-                        s.push(']');
-                    }
-                    Err(e) => s.push_str(&format!(",\"split_error\":{}", esc(&e.to_string()))),
-                }
-                if want_idents {
-                    let mut set = std::collections::BTreeSet::new();
-                    idents(tokens, &mut set);
-                    s.push_str(&format!(",\"idents\":{}", arr(&set.into_iter().collect::<Vec<_>>())));
-                }
-                s.push('}');
-                writeln!(out, "{}", s).unwrap();
-            }
-        }
+        process(&line, want_idents, &mut out);
     }
     out.flush().unwrap();
 }
